@@ -154,14 +154,30 @@ def normalised_id(tree: Tree, fn: FuncInfo, rd: RD, arg: ast.AST, call: ast.Call
     if ".children[0]" in txt:
         return "TwoBodyDecay.children[0] (normalised by from_transition)"
     if isinstance(arg, ast.Name):
-        for d in rd.reaching(arg):
-            # reassignment under `if is_opposite_helicity_state(topology, <same var>)`
+        defs = list(rd.reaching(arg))
+        guarded, plain = [], []
+        for d in defs:
+            hit = None
             for anc in ancestors(d.node):
                 if isinstance(anc, ast.If):
                     for c in ast.walk(anc.test):
                         if isinstance(c, ast.Call) and tree.callee(c, fn) == OPPOSITE and len(c.args) >= 2 and unparse(c.args[1]) == arg.id:
                             if not (isinstance(anc.test, ast.UnaryOp) and isinstance(anc.test.op, ast.Not)):
-                                return f"`if {unparse(anc.test)}: {unparse(d.node)[:50]}`"
+                                hit = anc
+            (guarded if hit is not None else plain).append((d, hit))
+        if guarded and plain:
+            # the replacement must be the SIBLING of the first pick
+            for d, anc in guarded:
+                v = d.value
+                if isinstance(v, ast.Call) and tree.callee(v, fn) == "ampform.helicity.decay::get_sibling_state_id" and len(v.args) >= 2 and unparse(v.args[1]) == arg.id:
+                    continue
+                if isinstance(v, ast.Subscript) and isinstance(v.slice, ast.Constant):
+                    firsts = [p.value for p, _ in plain if isinstance(p.value, ast.Subscript) and isinstance(p.value.slice, ast.Constant) and unparse(p.value.value) == unparse(v.value)]
+                    if firsts and all({f.slice.value, v.slice.value} == {0, 1} for f in firsts) and len(firsts) == len(plain):
+                        continue
+                return None
+            d, anc = guarded[0]
+            return f"`if {unparse(anc.test)}: {unparse(d.node)[:50]}` (replaced by its sibling)"
     return None
 
 
@@ -255,12 +271,15 @@ def run(ctx: Check, tree: Tree) -> None:
     ctx.assumptions += ["qrules Topology API (get_edge_ids_*, edges) behaves as documented", "is_opposite_helicity_state is a total order on siblings (tuple comparison of attached final states)"]
     ctx.section(check_prov, ctx, tree, [ANGLES], min_stores=4)
     ctx.section(check_frame, ctx, tree)
-    from .c07 import check_pool
+    from .c07 import check_pool, check_recursion_shape
 
     ctx.section(check_pool, ctx, tree)
+    ctx.section(check_recursion_shape, ctx, tree)
     ctx.section(check_normalised, ctx, tree)
     ctx.section(check_convention, ctx, tree)
-    from .c05 import check_rotation_chain_order
+    from .c05 import check_rotation_chain_order, check_wigner_angle_table
+
+    ctx.section(check_wigner_angle_table, ctx, tree)
 
     ctx.section(check_rotation_chain_order, ctx, tree)  # interfering topologies with axis-angle alignment
     from .c02 import check_group_key
